@@ -4,7 +4,9 @@ package props
 // relative to the current state, and applying an optional post-signing mutation.
 
 import (
+	"bytes"
 	"encoding/hex"
+	"reflect"
 
 	"github.com/pokt-network/posmint/crypto"
 	sdk "github.com/pokt-network/posmint/types"
@@ -27,6 +29,26 @@ type builtTx struct {
 	Replayed  bool
 	Severity  sdk.Dec
 	SignerBal sdk.Int
+	// how the submission relates to what was signed (known by construction, not by verifying):
+	// Constructed = pool[SignKey] signed exactly the content built here; ContentChanged = a signed field
+	// (chain id, entropy, fee, message, memo) differs from what was signed; SigChanged = the signature bytes
+	// were altered after signing
+	Constructed    bool
+	ContentChanged bool
+	SigChanged     bool
+}
+
+// coinsSame compares two fee coin lists field by field (no library arithmetic involved)
+func coinsSame(a, b sdk.Coins) bool {
+	if len(a) != len(b) {
+		return false
+	}
+	for i := range a {
+		if a[i].Denom != b[i].Denom || a[i].Amount.BigInt().Cmp(b[i].Amount.BigInt()) != 0 {
+			return false
+		}
+	}
+	return true
 }
 
 func (ch *chain) addrOf(i int) sdk.Address {
@@ -69,7 +91,8 @@ func (ch *chain) buildTx(tx *hTx) *builtTx {
 		if err := simCdc.UnmarshalBinaryLengthPrefixed(bt.Bytes, &std); err == nil {
 			bt.Std, bt.Msg, bt.Fee = std, std.Msg, std.Fee
 			if std.Msg != nil {
-				bt.Signer = std.Msg.GetSigner()
+				// (a structurally mutated message may not be able to name its signer)
+				catch(func() { bt.Signer = std.Msg.GetSigner() })
 			}
 		}
 		return bt
@@ -98,6 +121,36 @@ func (ch *chain) buildTx(tx *hTx) *builtTx {
 			}
 		default:
 			b = append(b, byte(tx.To))
+		}
+		bt.Bytes = b
+		bt.Mutated = true
+		return bt
+	}
+	if tx.Kind == "structmut" {
+		// a valid signed transaction of a drawn kind with one field dropped / duplicated / emptied / re-typed
+		inner := *tx
+		kinds := []string{"send", "send", "stake", "stake", "unstake", "unjail", "dao", "dao", "param", "upgrade", "award", "burn"}
+		inner.Kind, inner.Mut, inner.Replay = kinds[mod(tx.To, len(kinds))], "", 0
+		switch inner.Kind {
+		case "send", "award":
+			inner.Amt, inner.Rel = 1, ""
+		case "stake":
+			inner.Amt, inner.Rel = 0, "min"
+		case "dao":
+			inner.Amt, inner.Rel, inner.Str = 1, "", "dao_transfer"
+		case "param":
+			inner.Key, inner.Str = "pos/MaxValidators", `"5"`
+		case "burn":
+			inner.Str = "0.5"
+		}
+		base := ch.buildTx(&inner)
+		level, op := "msg", tx.Str
+		if len(op) > 3 && op[:3] == "tx:" {
+			level, op = "tx", op[3:]
+		}
+		b, ok := structMutateTx(base.Bytes, level, op, int(tx.Amt))
+		if !ok {
+			return base
 		}
 		bt.Bytes = b
 		bt.Mutated = true
@@ -200,6 +253,9 @@ func (ch *chain) buildTx(tx *hTx) *builtTx {
 	}
 	std := authtypes.NewStdTx(msg, feeCoins, authtypes.StdSignature{PublicKey: pub, Signature: sig}, tx.Memo, tx.Entropy)
 	ch.mutate(tx, &std, bt, mk)
+	bt.Constructed = true
+	bt.ContentChanged = chainID != simChainID || std.Entropy != tx.Entropy || std.Memo != tx.Memo || !coinsSame(std.Fee, feeCoins) || !reflect.DeepEqual(std.Msg, msg)
+	bt.SigChanged = !bytes.Equal(std.Signature.Signature, sig)
 	bt.Std = std
 	bz, err := simCdc.MarshalBinaryLengthPrefixed(std)
 	if err != nil {
